@@ -702,3 +702,25 @@ def aec_flush_family(rng):
                 h["ops"] = ops
                 hs.append(h)
     return hs
+
+
+def incompressible_rotation_family(rng, comps=("gz", "xz"), n=110):
+    """Compressed outputs that hold several KiB the compressor cannot shrink (random names) when a rotation - or the destruction -
+    closes them: the compressor then has far more pending than one step of its finishing loop delivers."""
+    hs = []
+    for comp in comps:
+        for out in ("file", "fd"):
+            h = gen_history(rng, nops=0, comp=comp, out=out, nbps=1, rot=False, sizes=[10000], hints_mode="all")
+            pools = Pools(rng)
+            tps = tps_of(h["preamble"]["bps"][0])
+            ops = []
+            for part in range(2):
+                for i in range(n):
+                    r = gen_qr(rng, pools, (tps, tps), 1500000000, "sparse")
+                    r["query_name"] = [rng.getrandbits(8) for _ in range(48)]
+                    ops.append({"op": "qr", "r": r})
+                ops.append({"op": "rot", "export": True} if part == 0 else {"op": "wb"})
+            h["ops"] = ops
+            hs.append(h)
+    return hs
+
